@@ -311,3 +311,111 @@ Proof.
         exact (nth_error_forall _ _ _ _ ORD Ei) | exact Ei | rewrite Hheld; discriminate |].
       intros j tj Ej _. apply (Free j tj Ej).
 Qed.
+
+(* ---- deadlock freedom with a lock order (ranks) and re-entrant locks ------------------------------- *)
+(* Acq l is allowed when every lock in hand either is l itself and l is re-entrant, or has a smaller rank. *)
+Definition may_acquire (rank : Z -> Z) (reent : Z -> bool) (held : list Z) (l : Z) : bool :=
+  forallb (fun h => ((h =? l) && reent l) || (rank h <? rank l)) held.
+
+Fixpoint ordr (rank : Z -> Z) (reent : Z -> bool) (held : list Z) (acts : list action) : bool :=
+  match acts with
+  | [] => true
+  | Acq l :: r => may_acquire rank reent held l && ordr rank reent (l :: held) r
+  | Rel l :: r => ordr rank reent (remove_one l held) r
+  | _ :: r => ordr rank reent held r
+  end.
+
+Definition thread_ordr rank reent (t : thread) : Prop := ordr rank reent (t_held t) (t_prog t) = true.
+
+Lemma step_thread_ordr rank reent t : thread_ordr rank reent t -> thread_ordr rank reent (step_thread t).
+Proof.
+  unfold thread_ordr, step_thread. destruct t as [prog held]. cbn [t_prog t_held].
+  destruct prog as [|a r]; [auto|]. destruct a; cbn [ordr t_prog t_held]; auto.
+  intros H. apply andb_true_iff in H as [_ H]. exact H.
+Qed.
+
+Theorem reachable_ordr rank reent progs c : forallb (ordr rank reent []) progs = true -> reachable (initial progs) c ->
+  Forall (thread_ordr rank reent) c.
+Proof.
+  intros H R. induction R as [|c c' R IH S].
+  - unfold initial. rewrite Forall_forall. intros t Ht. apply in_map_iff in Ht as (pr & <- & Hin).
+    unfold thread_ordr. cbn. rewrite forallb_forall in H. apply H. exact Hin.
+  - inversion S; subst. apply update_nth_forall; [exact IH|]. apply step_thread_ordr. eapply nth_error_forall; eauto.
+Qed.
+
+(* the lock a thread is waiting for, if it is blocked *)
+Definition waits_for (c : config) (i : nat) : option Z :=
+  match nth_error c i with
+  | Some t => match t_prog t with
+              | Acq l :: _ => if others_hold c i l 0 then Some l else None
+              | _ => None
+              end
+  | None => None
+  end.
+
+Lemma not_enabled_waits c i t : nth_error c i = Some t -> t_prog t <> [] -> enabled c i = false ->
+  exists l r, t_prog t = Acq l :: r /\ others_hold c i l 0 = true.
+Proof.
+  intros E P En. unfold enabled in En. rewrite E in En. destruct (t_prog t) as [|a r]; [contradiction|].
+  destruct a; try discriminate. apply negb_false_iff in En. eauto.
+Qed.
+
+(* Among finitely many blocked threads pick one that waits for a lock of maximal rank: its holder is blocked on a
+   lock of strictly greater rank - contradiction.  We phrase it as: if every live thread is blocked, False. *)
+Lemma max_rank_blocked (rank : Z -> Z) (ls : list Z) : ls <> [] -> exists l, In l ls /\ forall l', In l' ls -> rank l' <= rank l.
+Proof.
+  induction ls as [|x ls IH]; [congruence|]. intros _. destruct ls as [|y ls'].
+  - exists x. split; [left; reflexivity|]. intros l' [<-|[]]. lia.
+  - destruct (IH ltac:(discriminate)) as (m & Hm & Hmax).
+    destruct (Z_le_gt_dec (rank x) (rank m)).
+    + exists m. split; [right; exact Hm|]. intros l' [<-|H]; [lia | apply Hmax, H].
+    + exists x. split; [left; reflexivity|]. intros l' [<-|H]; [lia|]. specialize (Hmax l' H). lia.
+Qed.
+
+Theorem deadlock_free_ranked p rank reent progs c :
+  forallb (wl p []) progs = true -> forallb (ordr rank reent []) progs = true -> reachable (initial progs) c ->
+  (exists i t, nth_error c i = Some t /\ t_prog t <> []) -> exists k, enabled c k = true.
+Proof.
+  intros Hwl Hord R (i0 & t0 & Ei0 & Pi0).
+  pose proof (reachable_ok p progs c Hwl R) as OK. pose proof (reachable_ordr rank reent progs c Hord R) as ORD.
+  pose proof (mutex_reachable progs c R) as MX.
+  (* the list of locks awaited by blocked threads *)
+  set (awaited := flat_map (fun i => match waits_for c i with Some l => [l] | None => [] end) (seq 0 (length c))).
+  destruct awaited as [|a0 aw] eqn:EA.
+  - (* nobody is blocked: thread i0 is enabled *)
+    exists i0. destruct (enabled c i0) eqn:En; [reflexivity|]. exfalso.
+    destruct (not_enabled_waits c i0 t0 Ei0 Pi0 En) as (l & r & P & OH).
+    assert (In l awaited).
+    { unfold awaited. apply in_flat_map. exists i0. split.
+      - apply in_seq. split; [lia|]. cbn. apply nth_error_Some. congruence.
+      - unfold waits_for. rewrite Ei0, P, OH. left. reflexivity. }
+    rewrite EA in H. destruct H.
+  - destruct (max_rank_blocked rank awaited ltac:(rewrite EA; discriminate)) as (lm & Hin & Hmax).
+    unfold awaited in Hin. apply in_flat_map in Hin as (i & Hi & Hw).
+    unfold waits_for in Hw. destruct (nth_error c i) as [t|] eqn:Ei; [|destruct Hw].
+    destruct (t_prog t) as [|a r] eqn:P; [destruct Hw|]. destruct a; try (destruct Hw).
+    destruct (others_hold c i l 0) eqn:OH; [|destruct Hw]. destruct Hw as [<-|[]].
+    (* the holder k of l *)
+    apply others_hold_spec in OH as (k & tk & Ek & Hn & Hk). rewrite Nat.add_0_r in Hn.
+    exists k. destruct (enabled c k) eqn:En; [reflexivity|]. exfalso.
+    assert (Pk : t_prog tk <> []).
+    { intros E0. pose proof (nth_error_forall _ _ _ _ OK Ek) as W. unfold thread_ok in W. rewrite E0 in W.
+      apply wl_done_releases in W. apply holds_nonempty in Hk. contradiction. }
+    destruct (not_enabled_waits c k tk Ek Pk En) as (l' & r' & P' & OH').
+    (* k may acquire l' while holding l: rank l < rank l' or l = l' (then it would be enabled... no: l' is held by another) *)
+    pose proof (nth_error_forall _ _ _ _ ORD Ek) as O. unfold thread_ordr in O. rewrite P' in O. cbn [ordr] in O.
+    apply andb_true_iff in O as [MA _]. unfold may_acquire in MA. rewrite forallb_forall in MA.
+    unfold holds in Hk. apply existsb_exists in Hk as (h & Hh & Eh). assert (h = l) by lia. subst h.
+    specialize (MA l Hh). apply orb_true_iff in MA as [MA|MA].
+    + (* l = l': but l' is held by some other thread than k, while k holds l = l': mutual exclusion *)
+      apply andb_true_iff in MA as [E _]. assert (l = l') by lia. subst l'.
+      apply others_hold_spec in OH' as (j & tj & Ej & Hnj & Hj). rewrite Nat.add_0_r in Hnj.
+      apply (MX k j tk tj l Ek Ej ltac:(lia)); [|exact Hj].
+      unfold holds. apply existsb_exists. exists l. split; [exact Hh | lia].
+    + (* rank l < rank l': contradicts maximality of l among awaited locks *)
+      assert (In l' awaited).
+      { unfold awaited. apply in_flat_map. exists k. split.
+        - apply in_seq. split; [lia|]. cbn. apply nth_error_Some. congruence.
+        - unfold waits_for. rewrite Ek, P', OH'. left. reflexivity. }
+      specialize (Hmax l' H). lia.
+Qed.
